@@ -3,7 +3,8 @@
 From Boltons Require Import Lib.Prelude Lib.C03_Syntax Lib.C03_Conc Model.C03_Model
      Proofs.C03_Serial Proofs.C03_Covered Proofs.C03_Main Proofs.C03_Link1 Proofs.C03_Link2 Proofs.C03_Link4 Proofs.C03_Link3
      Spec.C03_Spec Proofs.C03_SpecLink Proofs.C03_SpecLink2 Proofs.C03_SpecLink3
-     Proofs.C03_Complete Proofs.C03_FinalOk Proofs.C03_Probe Proofs.C03_Transfer Proofs.C03_Final Check.C03_Check Gen.C03_Gen.
+     Proofs.C03_Complete Proofs.C03_FinalOk Proofs.C03_Probe Proofs.C03_Transfer Proofs.C03_Final
+     Proofs.C03_Realise Proofs.C03_Explore Check.C03_Check Gen.C03_Gen.
 
 (* (T) obligation over regenerated data: in the CURRENT source, self._lock is a
    threading.RLock and every statement of every C03 method of LRI and LRU that touches the
@@ -235,6 +236,25 @@ Theorem C03_every_schedule_satisfies_spec :
       spec_holds (rc_of cf) init ps (observe_conc tb cf (length ps) s) = true.
 Proof. exact conc_outcome_holds. Qed.
 Print Assumptions C03_every_schedule_satisfies_spec.
+
+(* ---- what pre-emption inside operations can add, in the model: nothing --------------------------
+   The converse of C03_serialisable: every serial order (of any length) is the result of a schedule
+   that switches threads only BETWEEN operations.  Hence, for a covered lock table, the quiescent
+   results over ALL schedules -- pre-emption before any micro-step -- are exactly the results over the
+   schedules with NO pre-emption inside an operation: schedules with k >= 1 intra-operation
+   pre-emptions reach no additional outcome.  (What the harness's pre-emption sweeps on the real
+   code test is therefore the HYPOTHESIS -- that the code's accesses are covered by the lock and
+   single bytecodes are atomic --, where a violation shows as a non-serial outcome.  The map from
+   opcode boundaries of CPython to micro-steps of the model is not formalised: see notes/C03.md.) *)
+Theorem C03_serial_orders_realised :
+  forall tb, table_covered tb = true ->
+  forall c progs sh0 order,
+    exists sched,
+      let s := conc_run tb c progs sh0 sched in
+      let '(shS, todoS, doneS) := serial_run tb c progs sh0 order in
+      m_lock s = None /\ m_sh s = shS /\ forall t, m_thr s t = mkThread None (todoS t) (doneS t).
+Proof. exact serial_orders_realised. Qed.
+Print Assumptions C03_serial_orders_realised.
 
 (* ---- `agree` transfers to `holds` -----------------------------------------------------------------
    What the check computes per run: agree = the model (Model/C03_Model.v, run serially in the observed
